@@ -881,6 +881,11 @@ func (r *fifoRunner) Exec(line string) string {
 	case "get":
 		k := r.k(unhx(t[1]))
 		v, ok := r.c.Get(k)
+		pv, pok := r.c.Peek(k)
+		// the views agree for absent keys too: what Get or Peek serve, Has reports (and the reverse)
+		if has := r.c.Has(k); ok != has || pok != has || (ok && pok && !bytes.Equal(v.([]byte), pv.([]byte))) {
+			r.add("C20", "views-disagree", fmt.Sprintf("get %s: Get found=%v Peek found=%v Has=%v", hx(k), ok, pok, has))
+		}
 		if !ok {
 			return "none | " + r.dump()
 		}
